@@ -5,7 +5,7 @@ OUT, VER, DET, DST = "/tmp/mut/out", "/tmp/mut/verify", "/tmp/mut/detect", "/ver
 rows = []
 for p in range(1, 21):
     pid = "C%02d" % p
-    for m in ("m1", "m2"):
+    for m in ("m1", "m2", "m3"):
         src = os.path.join(OUT, pid, m)
         if not os.path.isdir(src): continue
         sid = "%s_%s" % (pid, m)
